@@ -708,6 +708,13 @@ SEMANTIC_INVALID = [
     ("dup_op", "struct E {}\nscope A { x: E, x: E }\n"),
     ("oneway_returns", "service X { oneway i32 f() }\n"),
     ("oneway_throws", "exception E {}\nservice X { oneway void f() throws (1: E e) }\n"),
+    # witnesses of c11_validated_extends_refuted / _throws_refuted / _dup_names_refuted (repaired: rejected)
+    ("extends_missing", "service A extends Nope { void f() }\n"),
+    ("extends_cycle", "service A extends B {}\nservice B extends A {}\n"),
+    ("extends_self", "service A extends A { void f() }\n"),
+    ("throws_struct", "struct S { 1: i32 a }\nservice A { void f() throws (1: S s) }\n"),
+    ("dup_field_name", "struct S { 1: i32 a, 2: i32 a }\n"),
+    ("dup_throws_id", "exception E {}\nservice X { void f() throws (1: E a, 1: E b) }\n"),
     ("missing_include", 'include "nothere.frugal"\n'),
     ("bad_include_ext", 'include "x.txt"\n'),
     ("self_include", 'include "root.frugal"\n'),
